@@ -414,6 +414,9 @@ func (fr *Frame) exec(ins ssa.Instruction) {
 	case *ssa.If:
 		cond := fr.term(x.Cond)
 		b := x.Block()
+		if !fr.spec && !fr.inQuant && fr.depth <= 1 && !cond.Lit {
+			c.ifSplits = append(c.ifSplits, cond)
+		}
 		fr.addEdge(b, b.Succs[0], And(fr.curReach, cond))
 		fr.addEdge(b, b.Succs[1], And(fr.curReach, Not(cond)))
 	case *ssa.Jump:
